@@ -357,7 +357,27 @@ func mi(wire []int) *nasType.MobileIdentity5GS {
 	return &nasType.MobileIdentity5GS{Len: uint16(len(wire)), Buffer: ev.Bytes(wire)}
 }
 
+// refill: ONE long-lived element per contents length, refilled IN PLACE through the library's own setter before every
+// reading (the element of a message that is kept and updated): a rendering is a function of the element's present octets,
+// whatever was rendered from the same element before.
+var kept = map[int]*nasType.MobileIdentity5GS{}
+
+func refill(wire []int) *nasType.MobileIdentity5GS {
+	a := kept[len(wire)]
+	if a == nil {
+		a = &nasType.MobileIdentity5GS{}
+		a.SetLen(uint16(len(wire)))
+		kept[len(wire)] = a
+	}
+	a.SetMobileIdentity5GSContents(ev.Bytes(wire))
+	return a
+}
+
 func miGetter(name string, wire []int, f func(a *nasType.MobileIdentity5GS) string) {
+	emit("MI."+name, nil, wire, nil, func() reader {
+		r := f(refill(wire))
+		return func(e *Ev) { e.Ots = texts(r) }
+	})
 	emit("MI."+name, nil, wire, nil, func() reader {
 		a := mi(wire)
 		r := f(a)
@@ -369,6 +389,14 @@ func miGetter(name string, wire []int, f func(a *nasType.MobileIdentity5GS) stri
 }
 
 func miCommon(wire []int) {
+	emit("MI.GetTypeOfIdentity", nil, wire, nil, func() reader {
+		s, err := refill(wire).GetTypeOfIdentity()
+		return func(e *Ev) { e.Ots, e.Err = texts(s), err != nil }
+	})
+	emit("MI.GetMobileIdentity", nil, wire, nil, func() reader {
+		id, typ, err := refill(wire).GetMobileIdentity()
+		return func(e *Ev) { e.Ots, e.Err = texts(id, typ), err != nil }
+	})
 	emit("MI.GetTypeOfIdentity", nil, wire, nil, func() reader {
 		a := mi(wire)
 		s, err := a.GetTypeOfIdentity()
@@ -767,7 +795,13 @@ func redoOne(e Ev) {
 
 // redo repeats logged calls in this fresh process: the file holds one event or an array of events; the FIRST is the
 // one asked for, the others (same function, different arguments) are run after it while its result is held.
-func redo(in, out string) {
+func redo(in, out string) { redoMode(in, out, false) }
+
+// redoAfter: the LAST event of the file is the one asked for; the others are run BEFORE it in this process (a result may
+// depend on what the same long-lived element or the library's own state saw earlier); the output keeps the last matching line.
+func redoAfter(in, out string) { redoMode(in, out, true) }
+
+func redoMode(in, out string, last bool) {
 	b, err := os.ReadFile(in)
 	if err != nil {
 		ev.Fatal("%v", err)
@@ -784,7 +818,12 @@ func redo(in, out string) {
 		ev.Fatal("redo: cannot read %s: %v", in, err)
 	}
 	w = ev.Create(out)
-	keep := es[0].Op
+	want := es[0]
+	if last {
+		want = es[len(es)-1]
+	}
+	keep := want.Op
+	wantKey, _ := json.Marshal([]interface{}{want.Ts, want.B, want.N, want.Io})
 	for _, e := range es {
 		redoOne(e)
 	}
@@ -801,11 +840,15 @@ func redo(in, out string) {
 		if i == len(lines) || lines[i] == '\n' {
 			ln := lines[start:i]
 			start = i + 1
-			var x struct {
-				Op string `json:"op"`
-			}
-			if len(ln) > 0 && json.Unmarshal(ln, &x) == nil && x.Op == keep && len(res) == 0 {
-				res = append(append(res, ln...), '\n')
+			var x Ev
+			if len(ln) > 0 && json.Unmarshal(ln, &x) == nil && x.Op == keep {
+				fill(&x)
+				k, _ := json.Marshal([]interface{}{x.Ts, x.B, x.N, x.Io})
+				if !last && len(res) == 0 {
+					res = append(append(res, ln...), '\n')
+				} else if last && string(k) == string(wantKey) {
+					res = append(append([]byte{}, ln...), '\n')
+				}
 			}
 		}
 	}
@@ -847,6 +890,8 @@ func main() {
 		digest(os.Args[2])
 	case "redo":
 		redo(os.Args[2], os.Args[3])
+	case "redoafter":
+		redoAfter(os.Args[2], os.Args[3])
 	case "digest1":
 		t, _ := strconv.Atoi(os.Args[2])
 		c, _ := strconv.Atoi(os.Args[3])
